@@ -125,6 +125,15 @@ def cellunions(acc, shard, nshards, tier):
                     harness.process(mod, acc, "text", {"text": "||".join(perm)}, "L1-alternative-orders")
         # alternatives that overlap or touch (">1||==1", "<=1||>=5||>1"): every ordered pair and triple of single ranges
         runs = [mask_text(((1 << (j - i + 1)) - 1) << i, pts) for i in range(n) for j in range(i, n) if not (i == 0 and j == n - 1)]
+        # an alternative that is not a specifier set makes the whole string invalid, wherever it stands - also after
+        # alternatives that already cover everything
+        if pts == ["1", "2", "3"]:
+            for a, b in itertools.product(runs, repeat=2):
+                for bad in ("x", ">=", "1.0"):
+                    for parts in ([a, b, bad], [a, bad, b], [bad, a, b]):
+                        k += 1
+                        if k % nshards == shard:
+                            harness.process(mod, acc, "text", {"text": "||".join(parts)}, "L1-alternative-orders")
         for r in (2, 3):
             if r == 3 and pts != ["1", "2", "3"] and tier == "quick":
                 continue
